@@ -63,7 +63,7 @@ pat(r"if \(!state->c\.(" + NAME + r")\) state->c\.(" + NAME + r") = malloc\((.*)
 pat(r"state->c\.(" + NAME + r") = malloc\((.*)\);", lambda m: [Ev("MALLOC", m.group(1), m.group(2))])
 pat(r"free\(state->c\.(" + NAME + r")\);", lambda m: [Ev("FREE", m.group(1))])
 pat(r"state->c\.(" + NAME + r") = NULL;", lambda m: [Ev("NULLIFY", m.group(1))])
-pat(r"if \(state->(" + NAME + r")_counter == (.*)\) \{", lambda m: [Ev("GUARD_CAP", m.group(1), m.group(2))])
+pat(r"if \(state->(" + NAME + r")_counter (==|>=|>|<|<=|!=) (.*)\) \{", lambda m: [Ev("GUARD_CAP", m.group(1), m.group(3), m.group(2))])
 pat(r"state->c\.(" + NAME + r")\[state->(" + NAME + r")_counter\+\+\] = (.*);",
     lambda m: [Ev("WRITE", m.group(1), "counter++", m.group(3)), Ev("COUNTER_OF", m.group(2))])
 pat(r"\(\(uint8_t \*\)(&?)state->c\.(" + NAME + r")\)\[state->(" + NAME + r")_counter\+\+\] = (.*);",
@@ -73,6 +73,8 @@ pat(r"state->c\.(" + NAME + r")\[state->(" + NAME + r")_counter\] = 0;",
 pat(r"\(\(uint8_t \*\)(&?)state->c\.(" + NAME + r")\)\[state->(" + NAME + r")_counter\] = 0;",
     lambda m: [Ev("WRITE", m.group(2), "counter", "0"), Ev("COUNTER_OF", m.group(3)), Ev("RAWVIEW", m.group(2), m.group(1))])
 pat(r"state->c\.(" + NAME + r")\[0\] = 0;", lambda m: [Ev("WRITE", m.group(1), "0", "0")])
+pat(r"if \(state->c\.(" + NAME + r")\) state->c\.(" + NAME + r")\[0\] = 0;",
+    lambda m: [Ev("WRITE_IF_NONNULL", m.group(2), "0", "0") if m.group(1) == m.group(2) else Ev("OTHER")])
 pat(r"memcpy\(state->c\.(" + NAME + r"), \"(.*)\", (.*)\);", lambda m: [Ev("MEMCPY", m.group(1), m.group(2), m.group(3))])
 pat(r"state->(" + NAME + r")_counter = (.*);", lambda m: [Ev("SETCOUNTER", m.group(1), m.group(2))])
 pat(r"state->c\.(" + NAME + r") = (.*);", lambda m: [Ev("SETOUT", m.group(1), m.group(2))])
